@@ -146,26 +146,15 @@ Section FramingProofs.
   Qed.
 
   (* ---- the stream of well-formed frames is delivered frame by frame ---- *)
-  Definition wf_frame (f : list byte) : Prop := frame_len f = Some (length f).
-
-  (* sequential decoding of the sender's messages, stopping at the first undecodable one *)
-  Fixpoint deliver (s : St) (fs : list (list byte)) : St * list M * list (list byte) * bool :=
-    match fs with
-    | [] => (s, [], [], false)
-    | f :: r =>
-        match decode s f with
-        | (s', None) => (s', [], r, true)
-        | (s', Some m) => let '(s'', ms, rest, c) := deliver s' r in (s'', m :: ms, rest, c)
-        end
-    end.
+  Notation deliver := (deliver St M decode).
 
   Theorem frames_exact : forall fs s, Forall wf_frame fs ->
     run_all s (concat fs) =
     (let '(s', ms, rest, c) := deliver s fs in (s', ms, concat rest, c)).
   Proof.
     induction fs as [|f r IH]; intros s W.
-    - cbn [concat deliver]. rewrite run_all_unfold. reflexivity.
-    - inversion W as [|? ? Wf Wr]; subst. cbn [concat deliver].
+    - cbn [concat Frame.deliver]. rewrite run_all_unfold. reflexivity.
+    - inversion W as [|? ? Wf Wr]; subst. cbn [concat Frame.deliver].
       rewrite run_all_unfold. rewrite (frame_len_app _ _ _ Wf).
       destruct (Nat.ltb_spec (length (f ++ concat r)) (length f)) as [L|L]; [rewrite app_length in L; lia|].
       rewrite firstn_app, Nat.sub_diag, firstn_all. cbn [firstn]. rewrite app_nil_r.
